@@ -1196,6 +1196,8 @@ def run(ctx):
         check_dsl(ctx, terms, meta, oracle_bad)
         check_pctl_grid(ctx, terms, meta, oracle_bad)
         probe_known(ctx)
+        from checks.c10_dsl import check_dsl_ext      # DSL statistics functions on strings/maps/empties/options (coq/C10/ModelDsl.v)
+        check_dsl_ext(ctx)
     ctx.cov["oracle"] = {"cases": len(meta), "disagreements": len(oracle_bad)}
     if not ok:
         if oracle_bad:
